@@ -146,3 +146,45 @@ PROPS["C09"] = {
     "assumptions": ["a streaming decompressor yields its output incrementally (gzip does)"],
     "rule": "stream limit: N in {1,2,5,16,100,255,256,1024}(+4096,65536 thorough) x sizes {0,1,N-1,N,N+1,2N+3,10N} x {plain, RLE-compressed constant (tiny wire), RLE-compressed random} x stream position 0..2; lying prefixes (declared N+1 .. 2^32-1, multiples of 2^8/2^16/2^24, present 0..N bytes) x endings; 400 (6000) random mixes; gzip bomb + lying-prefix allocation probes.",
 }
+
+PROPS["C16"] = {
+    "title": "Interceptors nest in declaration order however options are grouped",
+    "lean_module": "ConnectProofs.C16",
+    "theorems": [
+        "ConnectModel.C16.wrap_eq",
+        "ConnectModel.C16.chainWith_order",
+        "ConnectModel.C16.applyOpts_order",
+        "ConnectModel.C16.chain_flat",
+        "ConnectModel.C16.grouping_irrelevant",
+        "ConnectModel.C16.each_once",
+        "ConnectModel.C16.effectiveOrder_eq",
+        "ConnectModel.C16.nil_only_is_none",
+    ],
+    "streams": ["icpt"],
+    "design_ref": "DESIGN.md §5 C16",
+    "technique": "Lean 4 proof by mutual structural induction over arbitrary option trees: the chain built by chainWith/newChain wraps any function space in flat declaration order + differential correspondence with real clients/handlers built from generated option trees and instrumented interceptors",
+    "level_text": "Machine-checked proof for every option tree (any grouping into WithInterceptors groups, any nesting depth of WithOptions/WithClientOptions/WithHandlerOptions, nil entries anywhere) and every function space (unary functions, streaming-client constructors, streaming handlers): the function the library calls is the declared interceptors wrapped in declaration order, first declared outermost, each exactly as often as declared, nil-only declarations wrap nothing. The model (chainWith's three branches, newChain's reversal and nil filter, the Wrap* loops) is tied to the code by running real clients and handlers built from generated option trees: all lists over 3 ids + nil up to length 4 (6 thorough), all compositions into consecutive groups, random nestings, on clients and handlers, unary and streaming, plus sub-sliced/reused option values.",
+    "level_note": "Trusted: Lean kernel; harness. Go slice aliasing (append on a caller's slice) is outside a value model; the alias probe (groups built from sub-slices of one backing array, option values used twice) covers it by testing.",
+    "rule": "stream icpt: every interceptor list over {1,2,3,nil} up to length 4 (6) x all compositions into consecutive WithInterceptors groups (lists up to 4) x 3 (8) random nestings to depth 3 with WithOptions/WithClientOptions/WithHandlerOptions and non-interceptor options interleaved x {client, handler} x {unary, streaming}; event logs of instrumented interceptors (request/creation order, response order, per-message send/receive order on streams).",
+}
+
+PROPS["C19"] = {
+    "title": "Handler panics are converted by WithRecover exactly as configured",
+    "lean_module": "ConnectProofs.C19",
+    "theorems": [
+        "ConnectModel.C19.recover_once",
+        "ConnectModel.C19.recover_nil",
+        "ConnectModel.C19.abort_repanics",
+        "ConnectModel.C19.no_panic_transparent",
+        "ConnectModel.C19.client_only_passthrough",
+        "ConnectModel.C19.unary_handler_eq_streaming",
+        "ConnectModel.C19.exactly_once_or_never",
+        "ConnectModel.C19.position",
+    ],
+    "streams": ["panic"],
+    "design_ref": "DESIGN.md §5 C19",
+    "technique": "Lean 4 theorems over a model of the deferred-recover frame of recover.go (panicked flag, recover, re-panic of the sentinel) composed with C16's chain theorem for the interceptor position + differential correspondence with real handlers panicking at scripted points",
+    "level_text": "Machine-checked proof over the model of the recover frame: any panic value other than http.ErrAbortHandler (nil included) leads to exactly one recovery call with that value and the wrapper returns the recovery function's error; the sentinel is re-raised without a recovery call; non-panicking calls are untouched; on the client side the unary wrapper is the identity; with interceptors pre ++ [recover] ++ post the recover frame sits inside pre and outside post (via C16). Go's defer/recover semantics for one frame is the modelled parameter. The tie runs real handlers of all four kinds in all three protocols, panicking with nil / error / string / struct / int / a wrapped sentinel / a *connect.Error / the sentinel, before the first receive, between sends and after the last send, with 0-2 interceptors before and after WithRecover, and checks recovery calls, the recovered value, the client-visible error and sentinel propagation out of ServeHTTP; plus clean-call/panic sequences on one handler.",
+    "level_note": "Trusted: Lean kernel; harness; Go's panic/defer/recover semantics (the harness module declares go 1.18 like /repo so that panic(nil) recovers as nil).",
+    "rule": "stream panic: 4 kinds x 3 protocols x {no panic, nil, sentinel, 6 other values} x 3 panic points x random 0..2 interceptors before/after WithRecover (exhaustive over the first four dimensions); sequence probes (clean, panic, clean, panic) per kind.",
+}
